@@ -10,6 +10,7 @@ CONSTANTS
   History = TRUE
   DoEmit = FALSE
   Bug = "none"
+  Hist = 0
   Shape = "sorted"
 INVARIANT TypeOK
 INVARIANT InComp
